@@ -49,6 +49,15 @@ def gen(ctx):
                   "[" * 3000, "[[" * 2000, "a" + ".a" * 3000 + " = 1", "a = \"" + "\\u00e9" * 1000 + "\"", "# " + "c" * 8000, "\n" * 8000, " " * 8000,
                   "a = \"\"\"" + "\\\n  " * 2000 + "\"\"\"", "\"" * 5000, "'" * 5000, "a = '''" + "''x" * 2000 + "'''", "k = 1\n" * 1500,
                   "[t]\nk = 1\n" * 800, "[[t]]\nk = 1\n" * 800, "a = [" + "[1], " * 1500 + "]", "x = { " + "a." * 70 + "b = 1 }"]
+    # every nesting construct far beyond the limit (a limit forgotten for ONE of them lets the tree — and then clone /
+    # print / drop / deserialize — recurse without bound: a stack overflow kills the harness process)
+    deep_only = []
+    for n in (300, 3000, 30000):
+        segs = ".".join(["a"] * n)
+        (big_inputs if n == 300 else deep_only).extend([f"[{segs}]\n", f"[[{segs}]]\n", f"{segs} = 1\n", "x = { " + segs + " = 1 }\n", "x = " + "[" * n + "]" * n + "\n",
+                       "x = " + "{a=" * n + "1" + "}" * n + "\n", "x = " + "[{a=" * (n // 2) + "1" + "}]" * (n // 2) + "\n",
+                       "x = { " + "a.a = {" * (n // 2) + "a.a = 1" + "}" * (n // 2) + " }\n", f"[[{segs}]]\n[{segs}.b]\nk = 1\n"])
+    ctx.deep_only = [t.encode() for t in deep_only]
     for t in big_inputs:
         out.append(t.encode())
         out.append(t.encode()[: len(t) // 2])
@@ -100,6 +109,23 @@ def run(ctx):
                     first = (b[:80], core, m)
         if bad:
             ctx.violation(f"{len(b)} bytes {b[:50]!r}: {bad}", {"mode": "c04", "case": ln, "bytes": b[:3000].decode("utf-8", errors="replace"), "impl": i[:400], "model": m, "witness": ln})
+    # far-beyond-limit inputs: implementation only (the model's fuelled loops are quadratic on them); they must be
+    # refused (or at least survive every follow-up operation) without killing the process
+    dlines = [h(b) for b in ctx.deep_only]
+    dimpl = []
+    k = 0
+    while k < len(dlines):
+        rc, o, _ = run_lines(tvh, "c04", dlines[k:])
+        dimpl += o
+        if len(dimpl) >= len(dlines):
+            break
+        dimpl.append("CRASH")
+        k = len(dimpl)
+    for b, ln, i in zip(ctx.deep_only, dlines, dimpl):
+        if i == "CRASH" or i.startswith("PANIC"):
+            ctx.violation(f"{len(b)} bytes {b[:50]!r}: abort / crash / stack overflow of the process" if i == "CRASH" else f"{len(b)} bytes {b[:50]!r}: panic",
+                          {"mode": "c04", "case": ln, "bytes": b[:300].decode("utf-8", errors="replace"), "impl": i[:400], "witness": ln})
+    ctx.cov["far_beyond_limit_inputs"] = len(dlines)
     ctx.oblige("correspondence c04: per-entry-point verdicts (document, value, key, key path, standalone date-time, slice) of the model = implementation; the model has no panic outcome",
                ndis == 0, f"{ndis} disagreements; shortest: {first}")
     if ctx.broken and not ctx.violations:
